@@ -370,12 +370,14 @@ def main(argv=None):
     deadline = time.time() + (a.budget or (75 if quick else 1500))
     n = 1500 if quick else 200000
     with common.Pool() as pool:
-        cases = [{"seed": a.seed * 100 + i, "ops": ops} for i, ops in enumerate(c05.CORE)]
-        for i in range(n):
-            cases.append(gen_case(a.seed * 1_000_000 + i))
-            cases.append({"mode": "api", "seed": a.seed * 1_000_000 + i, "ops": gen_api_ops(random.Random(a.seed * 1_000_000 + i))})
-        for c in cases[:1]:
-            c["want_sample"] = True
+        def gen():
+            for i, ops in enumerate(c05.CORE):
+                yield {"seed": a.seed * 100 + i, "ops": ops}
+            for i in range(n):
+                yield gen_case(a.seed * 1_000_000 + i)
+                yield {"mode": "api", "seed": a.seed * 1_000_000 + i, "ops": gen_api_ops(random.Random(a.seed * 1_000_000 + i))}
+
+        cases = common.with_samples(gen(), 1)
         for case, res in pool.map(run_case, cases, deadline=deadline, chunksize=4):
             ev.add_run(res)
             for v in res["violations"]:
